@@ -650,14 +650,18 @@ inline int e1_main(int argc, char** argv, bool inproc = false) {
     return 2;
   }
   Agg agg;
-  Case lastfail;
-  Outcome lastout;
+  Case lastfail, firstfail;
+  Outcome lastout, firstout;
   bool any_fail = false;
   bool okall    = rc::check(std::string("property ") + HARNESS, [&] {
     Case c    = *rc::gen::exec([] { return generate(); });
     Outcome o = run_in_child(c);
     agg.add(c, o);
     if (o.status == "FAIL") {
+      if (!any_fail) { // the case that failed first, before any shrinking
+        firstfail = c;
+        firstout  = o;
+      }
       lastfail = c;
       lastout  = o;
       any_fail = true;
@@ -673,6 +677,10 @@ inline int e1_main(int argc, char** argv, bool inproc = false) {
     std::string path = rdir + "/" + HARNESS + "-" + tag + "-" +
                        std::to_string(case_hash(lastfail) % 100000000) + ".json";
     write_replay(path, lastfail, lastout, fkey);
+    // in-process harnesses may carry state of the subject from one case to the next (deliberately, where
+    // reuse is part of the property); a shrunk case found in a process that already saw a failure need not
+    // fail in a fresh one, the first failing case does: it is kept next to the shrunk one
+    write_replay(path + ".orig", firstfail, firstout, finding_key(firstfail, firstout.key));
     printf("FALSIFIED harness=%s key=%s replay=%s msg=%s\n", HARNESS,
            fkey.c_str(), path.c_str(), lastout.msg.c_str());
     return 1;
